@@ -399,17 +399,17 @@ DRIVE = {
                               ("ok_pubkey", "a.ok_pubkey = 1", "ERR_ANY", "\\return ERR_OK iff the pair is valid")]),
     "bignPubkeyVal": D({"l": 128}, 0, flags=["ok_params"], extra={"l": [192, 256]},
                        hand=[("ok_pubkey", "a.ok_pubkey = 1", "ERR_ANY", "\\return ERR_OK iff the key is valid")]),
-    "bignPubkeyCalc": D({"l": 128}, 1, flags=["ok_params", "ok_privkey"], extra={"l": [192, 256]}),
-    "bignDH": D({"l": 128, "key_len": 32}, 1, flags=["ok_params", "ok_privkey", "ok_pubkey"], extra={"key_len": [0, 1, 63, 64, 65]}),
-    "bignSign": D({"l": 128}, 1, flags=["ok_params", "ok_oid", "ok_privkey", "ok_rng"], extra={"l": [192, 256]}),
-    "bignSign2": D({"l": 128, "t_len": 16}, 1, flags=["ok_params", "ok_oid", "ok_privkey"], extra={"l": [192, 256], "t_len": [0, 1, 64]}),
+    "bignPubkeyCalc": D({"l": 128}, 1, flags=["ok_params", "ok_privkey"], extra={"ok_privkey": [2, 3], "l": [192, 256]}),
+    "bignDH": D({"l": 128, "key_len": 32}, 1, flags=["ok_params", "ok_privkey", "ok_pubkey"], extra={"ok_privkey": [2, 3], "key_len": [0, 1, 63, 64, 65]}),
+    "bignSign": D({"l": 128}, 1, flags=["ok_params", "ok_oid", "ok_privkey", "ok_rng"], extra={"ok_privkey": [2, 3], "l": [192, 256]}),
+    "bignSign2": D({"l": 128, "t_len": 16}, 1, flags=["ok_params", "ok_oid", "ok_privkey"], extra={"ok_privkey": [2, 3], "l": [192, 256], "t_len": [0, 1, 64]}),
     "bignVerify": D({"l": 128}, 0, flags=["ok_params", "ok_oid", "ok_pubkey"], auth=["ERR_BAD_SIG"], tamper=["sig0", "sig1", "hash", "s1max"],
                     extra={"l": [192, 256]}),
     "bignKeyWrap": D({"l": 128, "len": 32}, 1, flags=["ok_params", "ok_pubkey", "ok_rng"], extra={"len": [18, 64]}),
     "bignKeyUnwrap": D({"l": 128, "len": 80}, 1, flags=["ok_params", "ok_privkey"], auth=["ERR_BAD_KEYTOKEN"],
                        tamper=["token", "point", "hdr", "key", "hdrnull", "tokennull", "zerotok"],
                        hand=[("len", "a.len >= 64", "ERR_BAD_KEYTOKEN", "token [len] = [l/4 + 16 + key]: at least 16 key octets (bignKeyWrap: len >= 16; \\remark: broken token => ERR_BAD_KEYTOKEN)")],
-                       extra={"len": [63, 64, 65, 0, 1]}),
+                       extra={"len": [63, 64, 65, 0, 1], "ok_privkey": [2, 3]}),
     "bignIdExtract": D({"l": 128}, 1, flags=["ok_params", "ok_oid", "ok_pubkey"], auth=["ERR_BAD_SIG"], tamper=["sig0", "idhash"]),
     "bignIdSign": D({"l": 128}, 1, flags=["ok_params", "ok_oid", "ok_privkey", "ok_rng"]),
     "bignIdSign2": D({"l": 128, "t_len": 16}, 1, flags=["ok_params", "ok_oid", "ok_privkey"]),
